@@ -25,9 +25,10 @@ import NemoVerif.Lemmas.V1Struct
 import NemoVerif.Lemmas.V1Follow
 import NemoVerif.Lemmas.V1Sub
 import NemoVerif.Lemmas.V1Multi
+import NemoVerif.Lemmas.V1Run
 import NemoVerif.Generated.LlmFlowsV1
 namespace NemoVerif.C14
-open NemoVerif.V1Interp NemoVerif.V1Struct NemoVerif.V1Follow NemoVerif.V1Sub NemoVerif.V1Multi
+open NemoVerif.V1Interp NemoVerif.V1Struct NemoVerif.V1Follow NemoVerif.V1Sub NemoVerif.V1Multi NemoVerif.V1Run NemoVerif.V1RunL
 
 /-- The compiler as the code has it (compile sub-blocks, then annotate every element of a loop body
     with `_next_on_break`/`_next_on_continue` unless an inner loop already did) computes the same
@@ -529,5 +530,132 @@ theorem interrupter_aborted_aborts (cfgs : Cfgs) (k : Nat) (ns : State) (i : Nat
     resumePass true (k + 1) cfgs ns i ch =
       resumePass true k cfgs { ns with flows := setAt ns.flows i { fs with status := .aborted, interruptedBy := none } } (i + 1) true := by
   simp [resumePass, hi, hs, hby, ht, hc]
+
+
+/-! ## Phase 4 (3): the action loop `generate_events` -/
+
+/-- one iteration: on a history that follows the flow, what the loop appends is what the structured state says -/
+theorem next_events_follow (cfgs : Cfgs) (id : String) (p : Prog) (fS : Nat) (oracle : Oracle)
+    (hnc : noCompetingFlows cfgs id p = true) (events : List REvent) (S : SS)
+    (hf : followAll p (startIntent p) fS { ctx := [], pos := .idle, dec := [] } (events.map REvent.toEvent) = some S) :
+    nextEvents cfgs oracle [] events = none ∨ nextEvents cfgs oracle [] events = refNext oracle S events := by
+  have key := next_step_is_flow_statement cfgs id p fS (events.map REvent.toEvent) S hnc hf
+  simp only [nextEvents, refNext]
+  cases events.getLast? with
+  | none => left; rfl
+  | some e =>
+    cases e with
+    | start n ps rk => right; rfl
+    | ev e =>
+      cases e with
+      | hidePrevTurn => right; rfl
+      | userIntent i => rcases key with h | h <;> simp [h]
+      | botIntent i => rcases key with h | h <;> simp [h]
+      | actionFinished n ok => rcases key with h | h <;> simp [h]
+      | contextUpdate d => rcases key with h | h <;> simp [h]
+      | startAction => rcases key with h | h <;> simp [h]
+      | other ty ps => rcases key with h | h <;> simp [h]
+
+/-- **run_follows_program.**  `V1Run.genLoop` mirrors the `while True` loop of `RuntimeV1_0.generate_events`
+    (`compute_next_steps` → the decided events are appended → a `StartInternalSystemAction` is dispatched to the action
+    oracle and its ContextUpdate / InternalSystemActionFinished / returned events are appended → loop; `Listen` ends
+    the turn; the > 100 events valve and an exception of `compute_next_steps` end it with the internal-error events).
+    `V1RunL.refLoop` is the same loop at SOURCE level: the decision of every iteration is read off the structured
+    state of the flow (`V1Follow.followAll`): the context updates of the statements run since the last event plus the
+    event of the statement the structured semantics (`execFrom`) reaches next.
+    For a single non-competing dialog flow (`noCompetingFlows`), EVERY action oracle, every history that follows the
+    flow so far and every number of loop iterations: whenever the reference turn is defined (the appended events keep
+    following the flow — successful actions, no `bot stop`), the loop produces exactly the reference's events, i.e. the
+    sequence of decided steps is the structured program's statement sequence — or the model's fuel ran out (`none`). -/
+theorem run_follows_program (cfgs : Cfgs) (id : String) (p : Prog) (fS : Nat) (oracle : Oracle)
+    (hnc : noCompetingFlows cfgs id p = true) :
+    ∀ (n : Nat) (events new out : List REvent) (S : SS),
+      followAll p (startIntent p) fS { ctx := [], pos := .idle, dec := [] } (events.map REvent.toEvent) = some S →
+      refLoop p (startIntent p) fS oracle n S events new = some out →
+      genLoop cfgs oracle [] n events new = none ∨ genLoop cfgs oracle [] n events new = some out := by
+  intro n
+  induction n with
+  | zero => intro events new out S _ h; simp [refLoop] at h
+  | succ n ih =>
+    intro events new out S hf hout
+    simp only [refLoop] at hout
+    simp only [genLoop]
+    rcases next_events_follow cfgs id p fS oracle hnc events S hf with h | h
+    · left; simp [h]
+    · rw [h]
+      cases hr : refNext oracle S events with
+      | none => simp [hr] at hout
+      | some nx =>
+        simp only [hr] at hout ⊢
+        generalize (if nx.isEmpty = true then [listen] else nx) = nx' at hout ⊢
+        by_cases h1 : ((nx'.getLast?.map REvent.isListen).getD false) = true
+        · simp only [h1, if_true] at hout ⊢
+          right; exact hout
+        · simp only [h1, Bool.false_eq_true, if_false] at hout ⊢
+          by_cases h2 : (new ++ nx').length > 100
+          · simp only [h2, if_true] at hout ⊢
+            right; exact hout
+          · simp only [h2, if_false] at hout ⊢
+            cases hfa : followAll p (startIntent p) fS S (nx'.map REvent.toEvent) with
+            | none => rw [hfa] at hout; cases hout
+            | some S' =>
+              rw [hfa] at hout
+              refine ih _ _ out S' ?_ hout
+              rw [List.map_append, followAll_append p _ fS _ _ _ S hf]
+              exact hfa
+
+/-- non-vacuity (finite fact): `user hi / $r = execute a1 / if $r: bot yes / else: bot no / bot bye`, the oracle answers
+    True: the reference turn decides `execute a1`, then (after the action's ContextUpdate and its Finished event) `bot yes`,
+    then `bot bye`, then nothing (`Listen`). -/
+example :
+    let p : Prog := .step (.user "hi") (.step (.exec "a1" "{}" (some "r"))
+      (.ite (.var "r") (.step (.bot "yes") .nil) (.step (.bot "no") .nil) (.step (.bot "bye") .nil)))
+    let oracle : Oracle := fun _ _ _ => { ret := .bool true }
+    let ev0 : List REvent := [.ev (.other "UtteranceUserActionFinished" []), .ev (.userIntent "hi")]
+    noCompetingFlows [mkCfg "f" p] "f" p = true ∧
+    (followAll p "hi" 50 { ctx := [], pos := .idle, dec := [] } (ev0.map REvent.toEvent)).bind
+      (fun S => refLoop p "hi" 50 oracle 20 S ev0 [])
+      = some [.start "a1" "{}" (some "r"), .ev (.contextUpdate [("r", .bool true)]), .ev (.actionFinished "a1" true),
+              .ev (.botIntent "yes"), .ev (.botIntent "bye"), listen] := by
+  decide
+
+/-- the loop never runs out of ITS fuel: `GEN_FUEL` iterations suffice whatever the flows and the oracle do (each
+    iteration appends at least one event; more than 100 new events close the valve) — `generateEvents` is `none` only if
+    `computeNextSteps` ran out of the model's slide fuel in some iteration (or `events` is empty). -/
+theorem gen_fuel_suffices (cfgs : Cfgs) (oracle : Oracle) (config : Ctx) :
+    ∀ (f : Nat) (events new : List REvent), new.length ≤ 100 → 101 ≤ f + new.length →
+      genLoop cfgs oracle config f events new = none →
+      ∃ ev' : List REvent, nextEvents cfgs oracle config ev' = none := by
+  intro f
+  induction f with
+  | zero => intro events new h100 hlen _; omega
+  | succ f ih =>
+    intro events new h100 hlen h
+    simp only [genLoop] at h
+    cases hn : nextEvents cfgs oracle config events with
+    | none => exact ⟨events, hn⟩
+    | some nx =>
+      simp only [hn] at h
+      have hpos : 0 < (if nx.isEmpty then [listen] else nx).length := by
+        by_cases he : nx.isEmpty = true
+        · simp [he]
+        · simp only [he, Bool.false_eq_true, if_false]
+          cases nx with
+          | nil => simp at he
+          | cons a r => simp
+      generalize (if nx.isEmpty = true then [listen] else nx) = nx' at h hpos
+      by_cases h1 : ((nx'.getLast?.map REvent.isListen).getD false) = true
+      · simp only [h1, if_true] at h; cases h
+      · simp only [h1, Bool.false_eq_true, if_false] at h
+        by_cases h2 : (new ++ nx').length > 100
+        · simp only [h2, if_true] at h; cases h
+        · simp only [h2, if_false] at h
+          refine ih _ _ (by omega) ?_ h
+          simp only [List.length_append] at h2 ⊢
+          omega
+
+theorem generateEvents_none (cfgs : Cfgs) (oracle : Oracle) (config : Ctx) (events : List REvent)
+    (h : generateEvents cfgs oracle config events = none) : ∃ ev' : List REvent, nextEvents cfgs oracle config ev' = none :=
+  gen_fuel_suffices cfgs oracle config GEN_FUEL events [] (by simp) (by simp [GEN_FUEL]) h
 
 end NemoVerif.C14
